@@ -268,3 +268,18 @@ pub fn legacy_boxed_opts_twin(a: u64, b: u64) -> std::pin::Pin<Box<dyn std::futu
     async fn __inner_opts(a: u64, b: u64) -> u64 { m1(); if cond() { return m3(); } helper().await; a + b + m2() }
     Box::pin(__inner_opts(a, b))
 }
+
+// ---- field sigils: `?` / `%` written before the field name (shorthand for a variable or place of that name) and before
+// the value; a bare name is an empty field to be recorded later
+#[instrument(skip(a, b, big), fields(?a, %b, ?big.a, x = ?b, y = %a, z = a, later))]
+pub fn sigils(a: &str, b: &str, big: &Big) -> u64 { m1(); big.a + m2() }
+pub fn sigils_twin(a: &str, b: &str, big: &Big) -> u64 { m1(); big.a + m2() }
+
+// ---- the shorthand on parameters that are not skipped: the custom field replaces the default recording
+#[instrument(fields(?a, %b))]
+pub fn sigils_params(a: &str, b: &str, c: u64) -> u64 { m1(); c + m2() }
+pub fn sigils_params_twin(a: &str, b: &str, c: u64) -> u64 { m1(); c + m2() }
+
+#[instrument(fields(?a, id = %b.a))]
+pub async fn sigils_async(a: String, b: Big) -> u64 { m1(); let v = helper().await; m2(); b.a + v }
+pub async fn sigils_async_twin(a: String, b: Big) -> u64 { m1(); let v = helper().await; m2(); b.a + v }
